@@ -27,6 +27,7 @@ CHECKS = {
     "types/encrypted_assertion.go": ["C11", "C09", "C07"],
     "types/encrypted_key.go": ["C11", "C09", "C07"],
     "uuid/uuid.go": ["C18"],
+    "attr_order.go": ["C20", "C10", "C08"],
 }
 
 SWAPS = [("==", "!="), ("!=", "=="), ("&&", "||"), ("||", "&&"), ("<=", "<"), (">=", ">"),
